@@ -309,8 +309,7 @@ MCSpec == MCInit /\ [][MCNext]_vars
 TerminalOutcomes == Idle => \A tx \in MCTxs : AllOrNone(st, tx, KnownDeviations)
 (* also in the middle of a run nothing is ever duplicated *)
 NeverDuplicates == \A tx \in MCTxs : NoDuplicates(st, tx, MCBranches)
-(* the set computed by Exec is the set of states the actions reach: a run  *)
-(* that ended without an injected stop is one of Exec's outcomes           *)
+(* every ref and staged ref names a stored commit; logs are chained *)
 TypeOK == /\ run.res \in {"idle", "running", "ok", "err", "crashed"}
           /\ \A b \in DOMAIN st.refs : st.refs[b] \in DOMAIN st.commits
           /\ \A k \in DOMAIN st.staged : st.staged[k] \in DOMAIN st.commits
